@@ -70,11 +70,11 @@ theorem serThread_wf (p : P) (h : TInv p) (t : Thread) (ht : t ∈ p.threads) :
   obtain ⟨m1, m2, m3, m4, m5, m6, m7, m8⟩ := a8
   obtain ⟨u, hu, hub⟩ := markerUstr_spec p.schemas t.strings.n p.gstrings.strings.length t.markers.types
     t.markers.strVals t.markers.numVals 0 m8
-  obtain ⟨f1, f2, f3, f4, f5, f6, f7, f8, f9, f10, f11, f12, f13⟩ := a2
+  obtain ⟨f1, f2, f3, f4, f5, f6, f7, f8, f9, f10, f11, f12, f13, _⟩ := a2
   obtain ⟨g1, g2, g3, g4, g5, g6, g7⟩ := f1
   obtain ⟨r1, r2, r3, r4⟩ := f2
   obtain ⟨n1, n2, n3, n4, n5, n6⟩ := a3
-  obtain ⟨s1, s2, s3, s4⟩ := a4
+  obtain ⟨s1, s2, s3, s4, _⟩ := a4
   simp only [serThread, List.getElem?_eq_getElem hpr, hu]
   refine ⟨_, rfl, ?_⟩
   have hlen : (serCats p.cats).length = p.cats.length := by simp [serCats]
